@@ -56,6 +56,13 @@ def drive(pid, tier, seed, only, res):
     kinds = list(spec['kinds'])
     lmax = {k: spec['lmax'][tier] for k in kinds}
     obligations = list(spec['obligations'])
+    quick_extra = spec.get('quick_extra') if tier == 'quick' else None
+    if quick_extra:
+        for k in quick_extra['kinds']:
+            if k not in kinds:
+                kinds.append(k)
+                lmax[k] = quick_extra['lmax']
+        obligations += quick_extra['obligations']
     extra = spec.get('thorough_extra') if tier == 'thorough' else None
     if extra:
         for k in extra['kinds']:
@@ -76,7 +83,7 @@ def drive(pid, tier, seed, only, res):
             st.get('feasibility_queries', 0), st.get('explore_solver_s', 0.0)), flush=True)
         res['distinct'] += len(scripts[k])
         res['bounds'].append('entry %s: every input of at most LMAX=%d bytes (full byte alphabet%s); %d feasible paths' % (
-            k, lmax[k], '' if k == 'bytes' else ', constrained to valid UTF-8 as the &str type guarantees', len(scripts[k])))
+            k, lmax[k], '' if v1sum.base(k) == 'bytes' else ', constrained to valid UTF-8 as the &str type guarantees', len(scripts[k])))
     res['functions'] = props_v1.functions_encoded(prog, kinds)
     res['models'] = props_v1.MODEL_LIST
     res['assumptions'] = props_v1.ASSUMPTIONS
@@ -212,7 +219,7 @@ def validate(prog, kinds, summaries, res, rnd, pool):
     lits = props_v1.test_literals(prog)
     for k in kinds:
         ctx, paths = summaries[k]
-        key = hashlib.sha256(('val|%s|%s|%s|%d|%s' % (prog.mir_sha, v1sum.model_version(), k, ctx.lmax, props_v1.RENDER_VERSION)).encode()).hexdigest()[:32]
+        key = hashlib.sha256(('val|%s|%s|%s|%d|%s' % (prog.mir_sha, v1sum.model_version(), v1sum.base(k), ctx.lmax, props_v1.RENDER_VERSION)).encode()).hexdigest()[:32]
         cpath = os.path.join(v1sum.CACHE, 'validated-%s.json' % key)
         if os.path.exists(cpath):
             d = json.load(open(cpath))
@@ -221,7 +228,7 @@ def validate(prog, kinds, summaries, res, rnd, pool):
             n += d['n']
             print('[M] validation %s: %d native comparisons (cached for this MIR hash)' % (k, d['n']), flush=True)
             continue
-        todo = [l for l in lits if len(l) <= ctx.lmax and (k == 'bytes' or is_utf8(l))] if k != 'str_views' else []
+        todo = [l for l in lits if len(l) <= ctx.lmax and (v1sum.base(k) == 'bytes' or is_utf8(l))] if k != 'str_views' else []
         tasks = [('val_witness', k, p.idx, {}) for p in paths] + [('val_literal', k, -1, {'lit': l.hex()}) for l in todo]
         out = []
         for rs, dt in pool.map(w_task, tasks, chunksize=2):
